@@ -26,14 +26,37 @@ SLICES = {
                   int_attrs=("a", "pt")),
              lambda q: T.has(q[1], {"tup", "dic"}),
              "nested packages (depth 2), one int and one seq attribute per class"),
+    "odd": (dict(prods=S("attr op tup lst dic proj oddproj bin".split()), pkg_depth=1,
+                 seq_attrs=("jets",), int_attrs=("a", "pt")),
+            lambda q: T.has(q[1], {"idxv", "idxe"}) or _has_absent_attr(q[1]),
+            "literal/packaged projections with negative, slice, out-of-range, variable selectors "
+            "and absent keys, in every operand position"),
+    "apply2": (dict(prods=S("attr op app2 appkw bin".split()), seq_attrs=("jets",), int_attrs=("a", "pt")),
+               lambda q: T.has(q[1], {"app2"}),
+               "called two-parameter lambdas (positional, mixed and keyword arguments) over operators"),
     "apply": (dict(prods=S("attr op app appkw first meth bin".split())),
               lambda q: T.has(q[1], {"app", "first"}),
               "called lambdas and First push-through with method calls"),
 }
 
 
+def _has_absent_attr(t):
+    if t[0] == "dattr" and t[2] == "zz":
+        return True
+    for c in t[1:]:
+        if isinstance(c, tuple):
+            if c and isinstance(c[0], str) and c[0] in T._TAGS:
+                if _has_absent_attr(c):
+                    return True
+            else:
+                for cc in c:
+                    if isinstance(cc, tuple) and cc and isinstance(cc[0], str) and cc[0] in T._TAGS and _has_absent_attr(cc):
+                        return True
+    return False
+
+
 def enumerate_sources(slice_name, lo, hi, pool, forms=("f",), extra_pred=None, with_type=False,
-                      need_ds=True, **gkw):
+                      need_ds=True, annot=None, **gkw):
     kw, pred, _ = SLICES[slice_name]
     kw = dict(kw)
     kw.update(gkw)
@@ -53,7 +76,10 @@ def enumerate_sources(slice_name, lo, hi, pool, forms=("f",), extra_pred=None, w
                 if s in seen:
                     continue
                 seen.add(s)
-                out.append((s, T.type_str(q[0])) if with_type else s)
+                if annot is not None:
+                    out.append((s, annot(q)))
+                else:
+                    out.append((s, T.type_str(q[0])) if with_type else s)
     return out
 
 
